@@ -31,6 +31,14 @@ pub fn run() {
                 crate::common::constants::IMDS_IP_NETWORK_BYTE_ORDER, crate::common::constants::IMDS_PORT,
                 string_to_ip(crate::common::constants::PROXY_AGENT_IP)
             ),
+            ["cgmount", bindir] => {
+                // where the connect hook gets attached: the real lookup, run against a stand-in `findmnt` found first on PATH
+                std::env::set_var("PATH", bindir);
+                match proxy_agent_shared::linux::get_cgroup2_mount_path() {
+                    Ok(p) => format!("ok {}", hex(p.to_string_lossy().as_bytes())),
+                    Err(_) => "err".into(),
+                }
+            }
             _ => "bad-op".into(),
         };
         out.line(&r);
